@@ -50,6 +50,9 @@ def kind_template(kind, label, token=True):
     return F.template(kind, token=token, private=kind.endswith("_priv"), label=label, ident=b"id-" + kind.encode()[:8])
 
 
+VARIANTS = (["ossl-asan", "ossl-plain"], ["ossl-plain", "ossl-asan"])      # the fs-fault clause runs the un-instrumented build under fsx
+
+
 class Obj:
     def __init__(self, kind, label, token, private):
         self.kind, self.label, self.token, self.private = kind, label, token, private
@@ -416,9 +419,12 @@ def main(tier):
                                 "re-initialised instance and the independent decoder are compared attribute by attribute; plus the golden token directories "
                                 "(file and SQLite) written by the pinned commit"}
         rep.assumptions = ["file store for the histories (SQLite store only through its golden fixture in this tier)", "byte-string ladder %r" % (list(kw.get("ladder", LADDER_QUICK)),),
-                           "fs-fault injection is not part of this check yet"]
+                           "fs-fault clause: one injected failure per call (every file-system syscall of the call x its realistic errnos), file store"]
     finally:
         ex.close()
+    # the fault clause: a call that could not persist its effect must not return CKR_OK (checks/fsfault.py)
+    import fsfault
+    rep.coverage["fs_fault_clause"] = fsfault.run("C05", tier, rep)
     return rep.finish()
 
 
